@@ -189,6 +189,18 @@ fn op_progs(op: &Op) -> Vec<Op> {
                 out.push(Op::OnThread { ops: b });
             }
         }
+        Op::WithManager { regs, then } => {
+            for i in 0..regs.len() {
+                let mut b = regs.clone();
+                b.remove(i);
+                out.push(Op::WithManager { regs: b, then: then.clone() });
+            }
+            for i in 0..then.len() {
+                let mut b = then.clone();
+                b.remove(i);
+                out.push(Op::WithManager { regs: regs.clone(), then: b });
+            }
+        }
         _ => {}
     }
     out
